@@ -243,6 +243,11 @@ Step ==
             (e.follow = 1 /\ hasPrev /\ pe.res = "initerr" /\ pe.clos \in {"", "Nothing"}) =>
                e.ga = <<>> /\ e.res = "ok",
             <<pe.op, pe.size, pe.align, e.ga, e.res>>)
+     \* ------------------------------------------------------------ C20 ----
+     \* the static empty chunk is shared by all chunk-less arenas on all threads: any store
+     \* into it races with the same store made for another arena on another thread
+     /\ Chk("C20", "SharedEmptyChunkNeverWritten",
+            \A k \in 1..Len(e.stores) : e.stores[k][2] = 0, e.stores)
      \* ---------------------------------------------------------------------
      /\ held' = heldA
      /\ live' = liveA
